@@ -47,7 +47,7 @@ template<uint32_t OPT, uint32_t G0, bool LARGE_REFUSED = false> static void chec
   V_ASSERT(err == Error::kOk, "first block: allocation succeeds when the OS provides memory");
   JitAllocatorBlock* b = static_cast<JitAllocatorBlock*>(span._block);
   if (err != Error::kOk || b == nullptr) return;
-  V_ASSERT(im->tree._root == b && b->_tree_left == nullptr && b->_tree_right == nullptr, "first block: is the root of the tree");
+  V_ASSERT(im->tree._root == b && b->_tree_nodes[0] == nullptr && b->_tree_nodes[1] == nullptr, "first block: is the root of the tree");
   V_ASSERT(pl->blocks.first() == b && pl->blocks.last() == b && pl->cursor == b && pl->block_count == 1 && b->_list_nodes[0] == nullptr && b->_list_nodes[1] == nullptr, "first block: is the only element of the pool list and the cursor");
   V_ASSERT(b->_pool == pl, "first block: belongs to the pool the size selects");
   // sizing policy: twice the base size, or the request (plus padding) rounded up to the base size; large pages round up further
@@ -154,7 +154,7 @@ template<uint32_t W, uint32_t OPT, bool B0_HAS_SPAN> static World2<W> world2() {
   w.pl->cursor = w.cursor_b0 ? w.b[0] : w.b[1]; w.pl->block_count = 2;
   JitAllocatorBlock* r = w.b0_is_root ? w.b[0] : w.b[1]; JitAllocatorBlock* c = w.b0_is_root ? w.b[1] : w.b[0];
   w.im->tree._root = r;
-  if (c->rx_ptr() < r->rx_ptr()) r->_tree_left = c; else r->_tree_right = c;
+  if (c->rx_ptr() < r->rx_ptr()) r->_tree_nodes[0] = c; else r->_tree_nodes[1] = c;
   w.pl->empty_block_count = (OPT & kOptImmediate) ? 0 : (((w.pre[0].flags | w.pre[1].flags) & kFE) ? 1 : 0);
   w.pl->total_area_size[0] = 2 * A; w.pl->total_area_used[0] = w.pre[0].area_used + w.pre[1].area_used;
   w.pl->total_overhead_bytes = 2 * block_overhead(A);
@@ -194,7 +194,7 @@ template<uint32_t W, uint32_t OPT> static void check_release_2b() {
     V_WITNESS("release2-kept");
   } else {
     V_ASSERT(vm_release_calls == 1 && vm_released_rx == brx && vm_released_size == bsz && block_freed[0], "release (2 blocks): the emptied block is unmapped and freed, exactly once");
-    V_ASSERT(w.im->tree._root == w.b[1] && w.b[1]->_tree_left == nullptr && w.b[1]->_tree_right == nullptr, "release (2 blocks): tree holds exactly the remaining block");
+    V_ASSERT(w.im->tree._root == w.b[1] && w.b[1]->_tree_nodes[0] == nullptr && w.b[1]->_tree_nodes[1] == nullptr, "release (2 blocks): tree holds exactly the remaining block");
     V_ASSERT(w.pl->blocks.first() == w.b[1] && w.pl->blocks.last() == w.b[1] && w.b[1]->_list_nodes[0] == nullptr && w.b[1]->_list_nodes[1] == nullptr && w.pl->cursor == w.b[1] && w.pl->block_count == 1, "release (2 blocks): list and cursor hold exactly the remaining block");
     V_ASSERT(w.pl->total_area_size[0] == A && w.pl->total_area_used[0] == other.area_used && w.pl->total_overhead_bytes == block_overhead(A), "release (2 blocks): pool totals = the remaining block");
     V_ASSERT(w.pl->empty_block_count == ((other.flags & kFE) ? 1 : 0), "release (2 blocks): empty_block_count still counts the flagged blocks");
@@ -230,7 +230,7 @@ static void check_second_block(size_t size) {
   V_ASSERT(b1->_block_size == 2 * b0->_block_size && b1->_area_size == 2 * A, "second block: block size doubles");
   V_ASSERT(pl->blocks.first() == b0 && pl->blocks.last() == b1 && b0->_list_nodes[1] == b1 && b1->_list_nodes[0] == b0 && b0->_list_nodes[0] == nullptr && b1->_list_nodes[1] == nullptr && pl->cursor == b0 && pl->block_count == 2, "second block: appended to the pool list, cursor unchanged");
   bool left = b1->rx_ptr() < b0->rx_ptr();
-  V_ASSERT(im->tree._root == b0 && (left ? b0->_tree_left == b1 && b0->_tree_right == nullptr : b0->_tree_right == b1 && b0->_tree_left == nullptr) && b1->_tree_left == nullptr && b1->_tree_right == nullptr, "second block: tree orders the two blocks by address");
+  V_ASSERT(im->tree._root == b0 && (left ? b0->_tree_nodes[0] == b1 && b0->_tree_nodes[1] == nullptr : b0->_tree_nodes[1] == b1 && b0->_tree_nodes[0] == nullptr) && b1->_tree_nodes[0] == nullptr && b1->_tree_nodes[1] == nullptr, "second block: tree orders the two blocks by address");
   uint32_t n = uint32_t((size + G - 1) / G);
   V_ASSERT(pl->total_area_size[0] == 3 * A && pl->total_area_used[0] == A + 1 + n && pl->total_overhead_bytes == block_overhead(A) + block_overhead(2 * A), "second block: pool totals = sum over both blocks");
   V_ASSERT(im->allocation_count == count_pre + 1, "second block: one more allocation");
